@@ -69,13 +69,20 @@ def addOrSubtract (p q : Poly) : Res Poly :=
     let d := l.length - s.length
     mkPoly (l.take d ++ List.zipWith (· ^^^ ·) s (l.drop d))
 
-/-- the double loop of `Multiply`: `product[i+j] ^= a_i * b_j`, rows in the order of `i` -/
+/-- xor the (shorter) list `row` into the head of `acc`; `row ++ 0…0` xor `acc` when `row` is not longer -/
+def addInto : List Nat → List Nat → List Nat
+  | [], acc => acc
+  | r :: rs, [] => r :: rs
+  | r :: rs, x :: xs => (r ^^^ x) :: addInto rs xs
+
+/-- the double loop of `Multiply`: `product[i+j] ^= a_i * b_j`, rows in the order of `i`;
+    the product of `a0 :: as` is the row `a0·b` (at offset 0) xor-ed into the product of `as` at offset 1 -/
 def mulRaw (F : GF) : List Nat → List Nat → Res (List Nat)
   | [], b => .ok (List.replicate (b.length - 1) 0)
   | a0 :: as, b => do
     let row ← b.mapM (fun bj => F.mul a0 bj)
     let rest ← mulRaw F as b
-    .ok (List.zipWith (· ^^^ ·) (row ++ List.replicate as.length 0) (0 :: rest))
+    .ok (addInto row (0 :: rest))
 
 /-- `Multiply(other)` -/
 def multiply (F : GF) (p q : Poly) : Res Poly :=
